@@ -768,7 +768,7 @@ def gen_fit_kw(rng, nkeys=None, invalid=False, force_key=None):
         elif k == "optimal_fit_edelta":
             kw[k] = rng.random() < 0.7
             if kw[k] and rng.random() < 0.9:
-                kw["optimal_fit_num_samples"] = rng.choice([5, 6, 8, 12])
+                kw["optimal_fit_num_samples"] = rng.choice([7, 7, 8, 9, 12, 6])
         elif k == "optimal_fit_num_samples":
             kw.setdefault(k, rng.choice([5, 7, 10]))
         elif k == "method":
@@ -924,7 +924,7 @@ class CurveEngineC03:
             # the scan shown afterwards belongs to the stored settings
             ma = rng.choice(MODELS[:4])
             ops.append({"op": "setfp", "key": "model_key", "value": ma})
-            ops.append({"op": "emod", "samples": rng.choice([5, 6])})
+            ops.append({"op": "emod", "samples": rng.choice([7, 8])})
             key = (["model_key"] + FIT_KEYS)[index % (len(FIT_KEYS) + 1)]
             if key == "model_key":
                 ops.append({"op": "setfp", "key": "model_key",
@@ -965,7 +965,7 @@ class CurveEngineC03:
                 # the upper one: an inverted, legal range)
                 ops.append({"op": "fit", "kw": {
                     "optimal_fit_edelta": True,
-                    "optimal_fit_num_samples": 5,
+                    "optimal_fit_num_samples": 7,
                     "range_x": [-1e-6, 5e-7]}})
                 ops.append({"op": "nudge", "key": "range_x", "index": 0,
                             "delta": rng.choice([2e-6, 3e-6]),
@@ -977,9 +977,9 @@ class CurveEngineC03:
                                       "correct_tip_offset"],
                             "options": None})
             elif route == "emod":
-                ops.append({"op": "emod", "samples": 6})
+                ops.append({"op": "emod", "samples": 7})
                 ops.append({"op": "setfp", "key": "optimal_fit_num_samples",
-                            "value": rng.choice([9, 5])})
+                            "value": rng.choice([9, 8])})
                 ops.append({"op": "emod"})
             elif route == "same_prep":
                 ops.append({"op": "prep", "route": rng.choice(
@@ -1068,7 +1068,7 @@ class CurveEngineC03:
             elif r < 0.88:
                 op = {"op": "emod"}
                 if rng.random() < 0.9:
-                    op["samples"] = rng.choice([5, 6, 9, 12])
+                    op["samples"] = rng.choice([7, 8, 9, 12, 5])
                 if rng.random() < 0.25:
                     op["callback_raises"] = rng.choice([1, 2])
                 if swarm["faults"] and rng.random() < 0.3:
@@ -2038,7 +2038,7 @@ class CurveEngineC09:
                 kw = gen_fit_kw(rng, nkeys=rng.choice([0, 1, 1, 2]),
                                 invalid=inv)
                 if kw.get("optimal_fit_edelta"):
-                    kw["optimal_fit_num_samples"] = 5
+                    kw["optimal_fit_num_samples"] = 7
                 op = {"op": "fit", "kw": kw}
                 if swarm["faults"] and rng.random() < 0.3:
                     op["fault"] = gen_fault(rng, ["minimize"], 2)
@@ -2795,7 +2795,7 @@ def c10_gen_scenario(rng, sid):
         extra["range_x"] = rng.choice([[-1e-6, 5e-7], [-5e-7, 1e-6]])
     if rng.random() < 0.2:
         extra["optimal_fit_edelta"] = True
-        extra["optimal_fit_num_samples"] = 5
+        extra["optimal_fit_num_samples"] = 7
     mk = rng.choice(["hertz_para", "hertz_cone", "sneddon_spher_approx",
                      "hertz_pyr3s"])
     pedits = [
@@ -2929,7 +2929,7 @@ def c10_gen_scenario(rng, sid):
                     "spec": [-1e-6, 5e-7]})
         ops.append({"op": "fit", "args": {
             "range_x": {"slot": s}, "optimal_fit_edelta": True,
-            "optimal_fit_num_samples": 5}})
+            "optimal_fit_num_samples": 7}})
         ops.append({"op": "mutate", "slot": s, "edit": {
             "kind": "list_set", "index": 0,
             "value": rng.choice([-6e-7, -3e-7])}})
@@ -3093,7 +3093,7 @@ class CurveEngineC10:
             pos = rng.randrange(1, len(ops) + 1)
             ops.insert(pos, {"op": "emod"})
             ops.insert(pos, {"op": "setfp", "key": "optimal_fit_num_samples",
-                             "value": 5})
+                             "value": 7})
         return {"config": {"curve": cfg}, "ops": ops}
 
     def execute(self, run):
